@@ -113,6 +113,15 @@ def statement_puzzles_wf : Prop :=
 
 theorem C15_puzzles_wf : statement_puzzles_wf := puzzles_wf
 
+/-- **Constructors.**  Every well-formed term passes the parameter checks its Python constructor makes (so the theorems
+above speak about terms that can actually be built); the checks themselves (`ctorOk`) are compared with the live
+constructors on parameters at and beyond their limits in every run. -/
+def statement_ctor : Prop := ∀ c : Comb, wf c = true → ctorOk c = true
+
+theorem C15_wf_ctorOk : statement_ctor := by
+  intro c h
+  cases c <;> simp_all [wf, ctorOk]
+
 /-! ### non-vacuity -/
 
 /-- nurikabe, 2×2: `[[0, 7], [-1, 16]]` ↦ `"g7.-10"` and back, embedded in a context -/
